@@ -46,7 +46,8 @@ HAZARDS = [
     'simp_int_quot_sum', 'simp_int_quot_product', 'simp_int_quot_like_terms', 'simp_real_div_literal',
     'simp_real_coeff_div_int', 'simp_real_cancel_to_int', 'simp_neg_product', 'simp_real_quot_sum_literal',
     # dead code
-    'simp_cond_int_quot', 'simp_cond_real_literal', 'named_if_exit', 'select_literal_range', 'select_logical',
+    'simp_cond_int_quot', 'simp_cond_real_literal', 'named_if_exit', 'elseif_true_body_starts_with_if',
+    'elseif_true_body_starts_with_block_if', 'elseif_false_else_starts_with_if', 'select_literal_range', 'select_logical',
     # unused vars / args
     'local_kind_param', 'param_in_initializer', 'dummy_only_in_print', 'local_only_in_internal',
     'dummy_only_in_internal', 'optional_present', 'dummy_only_in_dimension', 'char_len_local', 'sched_both', 'uvars_scalars_with_loops',
@@ -66,7 +67,8 @@ class Case:
         return '\n'.join(t for _, t in self.files)
 
 
-NONCONST = {'y1', 'y2', 'x1', 'a', 'b', 'w', 'v1', 'v2', 'v3', 'k1', 'k2', 'n', 'ia', 'tab', 'i', 'j'}
+VARNAMES = {'y1', 'y2', 'x1', 'a', 'b', 'w', 'v1', 'v2', 'v3', 'k1', 'k2', 'n', 'ia', 'tab', 'i', 'j', 'r1', 'r2', 'rp',
+            'tv%tp', 'c1', 'c2', 'c3', 'c4', 'tv%tk', 'np', 'nq', 'hp', 'lt', 'ptab'}
 
 
 def _names(t):
@@ -137,7 +139,7 @@ class CPGen:
         if nl and rng.random() < 0.8:
             v = rng.choice(nl)
             return rng.choice([v, v, v, f'n + 1 - {v}', f'1 + mod({v}, n)'])
-        return rng.choice(['1', 'n', '(n + 1) / 2', '1 + modulo(k1, n)'])
+        return rng.choice(['1', 'n', 'max(1, n / 2)', '1 + modulo(k1, n)'])
 
     def sub_tab(self):
         rng = self.rng
@@ -261,8 +263,8 @@ class CPGen:
         a, da = self.re(d - 1, const)
         if kind in ('add', 'sub', 'minmax'):
             b, db = self.re(d - 1, const)
-            if _names(a) & _names(b) & NONCONST:
-                # no input-dependent leaf twice in a sum: real terms cancelling to an *integer* literal (C08) is kept out
+            if _names(a) & _names(b) & VARNAMES:
+                # no variable twice in a real sum: real terms cancelling to an *integer* literal (C08) is kept out
                 b, db = self.rlit()
             desc = (max(da[0], db[0]), da[1] + db[1])
             if kind == 'minmax':
@@ -297,7 +299,10 @@ class CPGen:
             return f'{num} / (1.0_8 + abs({b}))', (0, 1.0)
         if kind == 'conv':
             return f'real({self.ie_b(d - 1, False, 1000)}, 8)', (0, 1.0)
+        # transcendental intrinsics only on arguments that cannot fold to a literal (a folded literal has no kind, the
+        # intrinsic would then be evaluated in single precision: known finding, hazard real_kind_fold)
         f = rng.choice(['sin', 'cos', 'tanh', 'sqrt', 'exp'])
+        a = self.re_v(d - 1)
         if f == 'sqrt':
             return f'sqrt(abs({a}))', (0, 1.0)
         if f == 'exp':
@@ -319,6 +324,10 @@ class CPGen:
         if re.search(r'\b' + re.escape(leaf.split('(')[0]) + r'\b', e):
             e, _ = self.rlit()
         return f"{leaf} {rng.choice(['+', '-'])} {_p(e)}"
+
+    def re_nc(self, d):
+        """real expression that cannot fold to a literal"""
+        return self.re_v(d)
 
     def damp(self, e):
         c = self.rng.randrange(4)
@@ -413,11 +422,11 @@ class CPGen:
         rng = self.rng
         c = rng.random()
         if c < 0.35:
-            return [f'{ind}a({self.sub_n()}) = {self.damp(self.re_ok(3)[0])}']
+            return [f'{ind}a({self.sub_n()}) = {self.damp(self.re_nc(2))}']
         if c < 0.55:
-            return [f'{ind}b({self.sub_n()}) = {self.damp(self.re_ok(3)[0])}']
+            return [f'{ind}b({self.sub_n()}) = {self.damp(self.re_nc(2))}']
         if c < 0.7:
-            return [f'{ind}w({self.sub_n()}) = {self.damp(self.re_ok(2)[0])}']
+            return [f'{ind}w({self.sub_n()}) = {self.damp(self.re_nc(2))}']
         if c < 0.85:
             return [f'{ind}ia({self.sub_n()}) = {self.ie_b(2, False, IB)}']
         self.features.add('array_const_elements')
@@ -427,7 +436,9 @@ class CPGen:
         rng = self.rng
         if rng.random() < 0.55:
             return [f'{ind}oi({rng.randint(1, NOI - 4)}) = {self.ie_b(3, rng.random() < 0.3, 10 ** 6)}']
-        return [f'{ind}orr({rng.randint(1, NOR - 2)}) = {self.damp(self.re_ok(3, rng.random() < 0.2)[0])}']
+        if rng.random() < 0.25:
+            return [f'{ind}orr({rng.randint(1, NOR - 2)}) = {self.re_ok(2, True)[0]}']
+        return [f'{ind}orr({rng.randint(1, NOR - 2)}) = {self.damp(self.re_nc(2))}']
 
     def stmt_if(self, ind, depth, ctx):
         rng = self.rng
@@ -438,12 +449,19 @@ class CPGen:
         for _ in range(nelif):
             self.features.add('else_if')
             out.append(f'{ind}else if ({self.cond(1)}) then')
-            out += self.block(ind + '  ', depth - 1, rng.randint(1, 2), ctx)
+            out += self._not_if_first(self.block(ind + '  ', depth - 1, rng.randint(1, 2), ctx), ind + '  ')
         if rng.random() < 0.6:
             out.append(f'{ind}else')
-            out += self.block(ind + '  ', depth - 1, rng.randint(1, 3), ctx)
+            blk = self.block(ind + '  ', depth - 1, rng.randint(1, 3), ctx)
+            out += self._not_if_first(blk, ind + '  ') if nelif else blk
         out.append(f'{ind}end if')
         return out
+
+    def _not_if_first(self, blk, ind):
+        """known finding deadcode:else-if-chain-...: outside its hazard slice, no branch after an ELSE IF starts with IF"""
+        if blk and blk[0].strip().startswith('if '):
+            return self.tap(ind) + blk
+        return blk
 
     def stmt_inline_if(self, ind, ctx):
         self.features.add('inline_if')
@@ -574,7 +592,7 @@ class CPGen:
                 return [f'{ind}call hinc(d={d}, ur=a, v={ov})']
             return [f'{ind}call hinc({ov}, {d}, w)']
         if c == 'harr':
-            f = self.damp(self.re_ok(1, rng.random() < 0.5)[0])
+            f = self.damp(self.re_nc(1)) if rng.random() < 0.5 else self.re_ok(1, True)[0]
             if kw:
                 return [f'{ind}call harr(n, a, f={f}, q=w, u=b)']
             return [f'{ind}call harr(n, a, b, w, {f})']
@@ -762,6 +780,15 @@ class CPGen:
         elif hz == 'array_const_elems':
             self.extra_decl.append('integer :: hza(3) = (/ 4, 5, 6 /)')
             s = ['hza(2) = k1', f'oi({T1}) = hza(2) + hza(1)']
+        elif hz == 'elseif_true_body_starts_with_if':
+            s = ['hz1 = k1', 'if (k1 > 100) then', '  hz1 = hz1 + 1', 'else if (.true.) then', '  if (k2 > 0) hz1 = hz1 + 2', '  hz1 = hz1 + 4',
+                 'else', '  hz1 = hz1 + 8', 'end if', f'oi({T1}) = hz1']
+        elif hz == 'elseif_true_body_starts_with_block_if':
+            s = ['hz1 = k1', 'if (k1 > 100) then', '  hz1 = hz1 + 1', 'else if (.true.) then', '  if (k2 > 0) then', '    hz1 = hz1 + 2', '  end if',
+                 '  hz1 = hz1 + 4', 'else', '  hz1 = hz1 + 8', 'end if', f'oi({T1}) = hz1']
+        elif hz == 'elseif_false_else_starts_with_if':
+            s = ['hz1 = k1', 'if (k1 > 100) then', '  hz1 = hz1 + 1', 'else if (.false.) then', '  hz1 = hz1 + 2', 'else', '  if (k2 > 0) then',
+                 '    hz1 = hz1 + 4', '  end if', '  hz1 = hz1 + 8', 'end if', f'oi({T1}) = hz1']
         elif hz == 'named_if_exit':
             s = ['hz1 = k1', 'hzblk: if (.true.) then', '  hz1 = hz1 + 1', '  if (k1 > 0) exit hzblk', '  hz1 = hz1 + 10',
                  'end if hzblk', f'oi({T1}) = hz1']
